@@ -9,6 +9,34 @@ TB = ("rustc (nightly 1.97) parsing, macro expansion, type checking and MIR cons
       "hand-written oracle tables under spec/ (each entry carries its reason)")
 
 CLAIMS = {
+    "C03": {
+        "technique": "static analysis: decision tables of parse_header/parse_inst/parse_operands from path conditions of every result site (syntax tree), MIR field-write census, C14's CFG rules",
+        "text": "The header, framing and quantifier decision tables are extracted (each result site with the semantic atoms that hold on its path) and compared with the statement's tables; "
+                "error payloads, limit bracketing, split of the first word, the single writer of the instruction counter, rejection of undeclared enumerants by every typed decoder method, "
+                "and parameter quantifiers are checked by shape; delivery order/exactly-once/stop-at-first-error are the CFG rules of C14. Numeric offsets beyond these shapes are not decided.",
+        "design_ref": "DESIGN.md 3/C03, B.4", "note": TB + "; with C09 (row well-formedness) the quantifier table is the grammar's language",
+    },
+    "C10": {
+        "technique": "static analysis: evaluation of parse_literal's match nest over all (type kind, width) equivalence classes, path conditions of the tracker's insertion sites, CFG dominance, statics census",
+        "text": "Width table of parse_literal decided for every equivalence class of (kind, width); the three insertion sites of the type tracker with their conditions and values; wiring of result "
+                "type / selector id into parse_literal; tracking dominates delivery in Parser::parse; fresh tracker per parser and no mutable/interior-mutable/thread-local static; assembler encodings. "
+                "The per-history statement is the composition of these clauses.",
+        "design_ref": "DESIGN.md 3/C10", "note": TB + "; HashMap semantics",
+    },
+    "C11": {
+        "technique": "static analysis: MIR who-may-write census of Decoder fields, bound-guard rule for every offset advance, decision table of word(), shape rules for limit bookkeeping and string()",
+        "text": "Only word()/string() advance the offset and every advance is dominated by a condition bounding it by the buffer; word()'s result sites with their path conditions equal the statement's "
+                "table (failure leaves the offset untouched and reports it); limit bookkeeping and string()'s clamped window/charging by shape; all typed requests delegate to word() once per word.",
+        "design_ref": "DESIGN.md 3/C11", "note": TB + "; from_le_bytes/from_utf8 (std); string() rules recognise the current idiom and fail closed on others",
+    },
+    "C14": {
+        "technique": "static analysis: dominator/reachability/value-flow rules on the MIR control-flow graph of Parser::parse, who-may-call census of the Consumer callbacks",
+        "text": "Exactly one call site per callback (resolved callees, whole crate); each callback result flows into Action::consume and `?`, with no callback reachable from the Break edge; protocol "
+                "order by dominance; finalize reachable only through the edge where parse_inst's error is State::Complete; Action::consume table; single guarded construction site of State::Complete; "
+                "load_* return the module only after `?`.",
+        "design_ref": "DESIGN.md 3/C14", "note": TB + "; MIR built with -Zmir-opt-level=0",
+    },
+
     "C12": {
         "technique": "static analysis: abstract interpretation of all public Builder methods over the selection typestate, reachable-state closure, MIR who-may-write census",
         "text": "All 1160+ public Builder methods are abstractly interpreted in every selection state reachable from Builder::new() (unknown data forks, calls inlined): no panicking path, the "
